@@ -228,6 +228,7 @@ def c15_gens(rng, rnd):
         "perm": g("Permutation", items=[str(i) for i in range(8)]),
         "perm2": g("Permutation", items=["1", "2"]),        # (short inputs: the identity permutation is drawn often)
         "perm3": g("Permutation", items=["5", "6", "7"]),
+        "mapsampled": g("MapSampled"),
         "ptr": g("Ptr", elem=g("Float64"), allowNil=True),
         "floats": g("Float64Range", min="-1000", max="1000"),
         "runes": g("StringOf", elem=g("RuneFrom", expr="", items=["Lu", "Nd"])),
